@@ -487,9 +487,17 @@ class Framer(tasking.Tasker):
             console.profuse("    False, empty enters\n")
             return False
 
+        claimed = []  # original auxes of the frames checked so far
         for frame in enters:
             if not frame.checkEnter(exits=exits):
                 return False
+            for aux in frame.auxes:
+                if aux.original:
+                    if any(aux is other for other in claimed):
+                        console.concise("    False. Aux '{0}' would be entered by two"
+                                        " frames at once\n".format(aux.name))
+                        return False
+                    claimed.append(aux)
         console.profuse("    True all {0}\n".format(self.name))
         return True
 
